@@ -12,6 +12,9 @@ import (
 	"time"
 
 	"google.golang.org/grpc"
+	"google.golang.org/grpc/balancer"
+	"google.golang.org/grpc/connectivity"
+	"google.golang.org/grpc/resolver"
 	gbackoff "google.golang.org/grpc/backoff"
 	"google.golang.org/grpc/credentials/insecure"
 	ibackoff "google.golang.org/grpc/internal/backoff"
@@ -69,8 +72,78 @@ func (s *sBackoff) flush() string {
 	return strings.TrimSpace(strings.Join(ev, " ") + " st=" + st)
 }
 
+// boLB is a one-subchannel LB policy with pick_first's observable behaviour (connect at once, stay
+// TRANSIENT_FAILURE and reconnect as soon as the subchannel is IDLE again after a failure, go IDLE when a
+// READY connection is lost) that additionally lets the harness call SubConn.UpdateAddresses, the
+// (deprecated but supported) API grpclb uses.
+type boLB struct {
+	cc     balancer.ClientConn
+	sc     balancer.SubConn
+	sticky bool
+}
+
+var boCurLB *boLB
+
+type boLBB struct{}
+
+func (boLBB) Name() string { return "verif_onesc" }
+func (boLBB) Build(cc balancer.ClientConn, _ balancer.BuildOptions) balancer.Balancer {
+	b := &boLB{cc: cc}
+	boCurLB = b
+	return b
+}
+
+type boPicker struct{ err error }
+
+func (p boPicker) Pick(balancer.PickInfo) (balancer.PickResult, error) {
+	return balancer.PickResult{}, p.err
+}
+
+func (b *boLB) UpdateClientConnState(s balancer.ClientConnState) error {
+	if b.sc != nil || len(s.ResolverState.Addresses) == 0 {
+		return nil
+	}
+	sc, err := b.cc.NewSubConn([]resolver.Address{{Addr: "backoff-0"}}, balancer.NewSubConnOptions{StateListener: b.onState})
+	if err != nil {
+		return err
+	}
+	b.sc = sc
+	sc.Connect()
+	return nil
+}
+
+func (b *boLB) onState(st balancer.SubConnState) {
+	switch st.ConnectivityState {
+	case connectivity.Connecting:
+		if !b.sticky {
+			b.cc.UpdateState(balancer.State{ConnectivityState: connectivity.Connecting, Picker: boPicker{balancer.ErrNoSubConnAvailable}})
+		}
+	case connectivity.TransientFailure:
+		b.sticky = true
+		b.cc.UpdateState(balancer.State{ConnectivityState: connectivity.TransientFailure, Picker: boPicker{st.ConnectionError}})
+	case connectivity.Idle:
+		if b.sticky {
+			b.sc.Connect()
+		} else {
+			b.cc.UpdateState(balancer.State{ConnectivityState: connectivity.Idle, Picker: boPicker{balancer.ErrNoSubConnAvailable}})
+		}
+	case connectivity.Ready:
+		b.sticky = false
+		b.cc.UpdateState(balancer.State{ConnectivityState: connectivity.Ready, Picker: boPicker{balancer.ErrNoSubConnAvailable}})
+	}
+}
+func (b *boLB) ResolverError(error)                                          {}
+func (b *boLB) UpdateSubConnState(balancer.SubConn, balancer.SubConnState) {}
+func (b *boLB) Close()                                                       {}
+func (b *boLB) ExitIdle() {
+	if b.sc != nil {
+		b.sc.Connect()
+	}
+}
+
 func init() {
-	register("s_backoff", func() SHandler { return &sBackoff{t0: time.Now(), mode: "fail"} })
+	balancer.Register(boLBB{})
+	register("s_backoff", func() SHandler { boCurLB = nil; return &sBackoff{t0: time.Now(), mode: "fail"} })
 }
 
 func (s *sBackoff) dial(ctx context.Context, _ string) (net.Conn, error) {
@@ -92,6 +165,11 @@ func (s *sBackoff) dial(ctx context.Context, _ string) (net.Conn, error) {
 		return nil, err
 	case "hang":
 		<-ctx.Done()
+		if ctx.Err() == context.Canceled {
+			// the attempt was abandoned (UpdateAddresses restart, channel close), not failed: the
+			// subchannel records no failure and arms no backoff for it
+			return nil, ctx.Err()
+		}
 		s.log("fail")
 		return nil, ctx.Err()
 	}
@@ -100,11 +178,11 @@ func (s *sBackoff) dial(ctx context.Context, _ string) (net.Conn, error) {
 }
 
 func (s *sBackoff) Op(f []string) string {
-	if s.cc == nil && f[0] != "new" && f[0] != "newdef" {
+	if s.cc == nil && f[0] != "new" && f[0] != "newlb" && f[0] != "newdef" {
 		return "nochan" // (a shrunk case may have lost its `new`)
 	}
 	switch f[0] {
-	case "new", "newdef": // new <base ns> <mult float64 bits> <jitter float64 bits> <max ns> <minConnectTimeout ns> | newdef (default dial options)
+	case "new", "newlb", "newdef": // newlb = new with the one-subchannel policy below instead of pick_first; new <base ns> <mult float64 bits> <jitter float64 bits> <max ns> <minConnectTimeout ns> | newdef (default dial options)
 		s.lis = bufconn.Listen(1 << 16)
 		s.srv = grpc.NewServer()
 		go s.srv.Serve(s.lis)
@@ -113,7 +191,10 @@ func (s *sBackoff) Op(f []string) string {
 			grpc.WithContextDialer(s.dial),
 			grpc.WithIdleTimeout(0), // channel idleness would tear the subchannel down during long sleeps
 		}
-		if f[0] == "new" {
+		if f[0] == "newlb" {
+			opts = append(opts, grpc.WithDefaultServiceConfig(`{"loadBalancingConfig":[{"verif_onesc":{}}]}`))
+		}
+		if f[0] == "new" || f[0] == "newlb" {
 			cfg := gbackoff.Config{
 				BaseDelay:  time.Duration(boInt64(f[1])),
 				Multiplier: math.Float64frombits(boUint64(f[2])),
@@ -142,6 +223,13 @@ func (s *sBackoff) Op(f []string) string {
 		return s.flush()
 	case "resetbo":
 		s.cc.ResetConnectBackoff()
+		return s.flush()
+	case "addrs": // the LB policy calls SubConn.UpdateAddresses with the one-element list [address k]
+		lb := boCurLB
+		if lb == nil || lb.sc == nil {
+			return "nolb"
+		}
+		lb.sc.UpdateAddresses([]resolver.Address{{Addr: "backoff-" + f[1]}})
 		return s.flush()
 	case "kill":
 		s.mu.Lock()
